@@ -2,7 +2,7 @@
 # usage: tools/seed_verify.sh <seed-dir> <demo-pkg-dir-relative-to-repo> [timeout]
 # Confirms a seeded change: applies, builds, existing suite passes, demo fails with it and passes without it.
 set -u
-sd=$1; pkgdir=$2; to=${3:-120s}
+sd=$1; pkgdir=$2; to=${3:-120s}; pat=${4:-*_test.go}
 export PATH=/opt/veriftools/go1.26.8/bin:$PATH GOFLAGS=-mod=mod GOPROXY=off GOSUMDB=off GOTOOLCHAIN=local GOWORK=off
 wt=$(mktemp -d /tmp/sv.XXXX); rmdir $wt
 git -C /repo worktree add --detach -q $wt HEAD || exit 2
@@ -16,7 +16,7 @@ for m in internal/integration internal/backcompat internal/grpccompat internal/t
   ( cd $m && go test -count=1 ./... >/tmp/sv.sub.$$ 2>&1 ) || { if grep -q "FAIL: TestCancelRepeatedPooled" /tmp/sv.sub.$$ && [ $(grep -c "^--- FAIL" /tmp/sv.sub.$$) -eq 1 ]; then echo "(flaky TestCancelRepeatedPooled in $m ignored)"; else suite_ok=0; grep -E "^(--- FAIL|FAIL)" /tmp/sv.sub.$$ | head -5; fi; }
 done
 echo "existing suite with change: $([ $suite_ok = 1 ] && echo pass || echo FAIL)"
-demos=$(ls $sd/*_test.go 2>/dev/null)
+demos=$(ls $sd/$pat 2>/dev/null)
 cp $demos $pkgdir/
 names=$(grep -ho "^func Test[A-Za-z0-9_]*" $demos | sed 's/func //' | paste -sd'|')
 ( cd $pkgdir && go test -count=1 -timeout $to -run "^($names)\$" . >/tmp/sv.demo1.$$ 2>&1 ); rc1=$?
